@@ -4,9 +4,11 @@ import (
 	"context"
 	"fmt"
 	"strings"
+	"sync"
 	"time"
 
 	"github.com/ipfs/go-graphsync"
+	cidlink "github.com/ipld/go-ipld-prime/linking/cid"
 
 	"github.com/filecoin-project/go-data-transfer/v2/transport/graphsync/testharness"
 )
@@ -38,7 +40,18 @@ func (s *trSuite) run(label string, steps []tStep) {
 	regd := map[chidTok]bool{}    // per-channel stores graphsync has registered (the harness's own count of its registry)
 	nextOut := uint64(100)
 	for i, st := range steps {
-		chansBefore, _ := r.tr.VerifSnapshot()
+		chansBefore, _, alive := r.snapshot()
+		if !alive {
+			prev := "the start"
+			if i > 0 {
+				prev = steps[i-1].String()
+			}
+			for _, prop := range []string{"C20", "C16", "C09"} {
+				s.res.fail(monitorFailure{Property: prop, CaseID: s.id, Signature: "channel-lock-left-held", Input: fmt.Sprintf("%s @step %d", full, i),
+					What: "after " + prev + " returned, the transport's bookkeeping can no longer be read: a lock of the transport or of a channel was left held, every later call on that channel (and Shutdown) blocks"})
+			}
+			break
+		}
 		o := r.exec(st)
 		out.steps = append(out.steps, st)
 		out.obs = append(out.obs, o)
@@ -135,6 +148,7 @@ func (s *trSuite) run(label string, steps []tStep) {
 						// ... counted by the harness itself, not read from the transport's bookkeeping
 						if n != queued[want] {
 							fail("C10", "queued-messages-not-delivered-exactly-once", fmt.Sprintf("%d messages were queued while the requester was away since the last delivery, %d were delivered on this request", queued[want], n))
+							fail("C16", "queued-messages-not-delivered-exactly-once", fmt.Sprintf("a resume issued while the channel had no live request must reach the next request once: %d queued since the last delivery, %d delivered on this request", queued[want], n))
 						}
 						queued[want] = 0
 					}
@@ -147,7 +161,7 @@ func (s *trSuite) run(label string, steps []tStep) {
 					delete(owner, rid)
 				}
 			}
-			ch, rq := r.tr.VerifSnapshot()
+			ch, rq, _ := r.snapshot()
 			if _, ok := ch[r.chidReal(st.K)]; ok {
 				fail("C16", "channel-tracked-after-cleanup", "the channel is still tracked after cleanup")
 			}
@@ -321,7 +335,7 @@ func runTransport(dir string, seed uint64, tier string) {
 	for _, viaCleanup := range []bool{false, true} {
 		rig := newTrRig(s.res, 1)
 		rig.exec(inc)
-		chs, _ := rig.tr.VerifSnapshot()
+		chs, _, _ := rig.snapshot()
 		var ridReal *graphsync.RequestID
 		for _, c := range chs {
 			if c.RequestID != nil {
@@ -356,6 +370,58 @@ func runTransport(dir string, seed uint64, tier string) {
 					s.res.fail(monitorFailure{Property: prop, CaseID: 0, Signature: "close-hangs-while-requester-cancels:" + what,
 						What: what + " did not return within 3s when the remote requester's cancellation was being delivered (on graphsync's single response goroutine) at the moment the channel was closed", Input: "incoming request, then " + what + " with the requestor-cancelled callback running before graphsync answers Cancel"})
 				}
+			}
+		}
+	}
+	// (b4) two restarts of one channel overlap (C10 / C16): a manual or monitor restart while a restart request of the
+	// counterparty is being handled.  The cancelled request takes a while to wind down, as with the real graphsync.
+	// Whatever the interleaving, every request but the last one opened for the channel has been cancelled.
+	for round := 0; round < 2; round++ {
+		rig := newTrRig(s.res, 1)
+		kk := chidTok{1, 2, 8}
+		rig.exec(tStep{Kind: "open", To: 2, K: kk, Msg: pullReq(8)})
+		rig.mu.Lock()
+		rig.cmds = nil
+		rig.gs.slowFinish = 120 * time.Millisecond
+		rig.mu.Unlock()
+		restart := func() {
+			m := restartReq(8, true)
+			_ = rig.tr.OpenChannel(context.Background(), peerOf(2), rig.chidReal(kk), cidlink.Link{Cid: cidOf(1)}, nodeOf(2), fakeState{received: int64(round)}, realOf(m))
+		}
+		var wg sync.WaitGroup
+		for i := 0; i < 2; i++ {
+			wg.Add(1)
+			go func() { defer wg.Done(); restart() }()
+			time.Sleep(30 * time.Millisecond)
+		}
+		done := make(chan struct{})
+		go func() { wg.Wait(); close(done) }()
+		select {
+		case <-done:
+		case <-time.After(6 * time.Second):
+			for _, prop := range []string{"C10", "C20"} {
+				s.res.fail(monitorFailure{Property: prop, Signature: "overlapping-restarts-hang", What: "two overlapping restarts of one channel did not both return within 6s", Input: "open, then two OpenChannel (restart) calls 30 ms apart; cancelled requests end 120 ms after Cancel"})
+			}
+			continue
+		}
+		time.Sleep(200 * time.Millisecond)
+		rig.mu.Lock()
+		opened, cancelled := 0, 0
+		for _, c := range rig.cmds {
+			switch c.Kind {
+			case "GRequest":
+				opened++
+			case "GCancel":
+				cancelled++
+			}
+		}
+		rig.mu.Unlock()
+		if opened != cancelled {
+			for _, prop := range []string{"C10", "C16"} {
+				s.res.fail(monitorFailure{Property: prop, Signature: "previous-request-not-cancelled-before-new-one",
+					What:     "after two overlapping restarts of one channel more than one graphsync request of the channel is alive: a previous request was not cancelled before the new one started",
+					Input:    "open, then two OpenChannel (restart) calls 30 ms apart; cancelled requests end 120 ms after Cancel",
+					Observed: fmt.Sprintf("%d requests opened by the restarts, %d cancelled (one was alive before)", opened, cancelled), Expected: "as many cancelled as opened"})
 			}
 		}
 	}
